@@ -314,6 +314,14 @@ def build(clean: bool = False, timeout: int = 3000):
             for f in ('TraversalGenCyc', 'TraversalGenQ'):
                 if not (THEORIES / f'{f}.v').exists():
                     (THEORIES / f'{f}.v').write_text('(* the translator failed closed *) Definition translator_failed_closed : True := 0.\n')
+        for tool, outs in (('translate_ts_summary.py', ('TSGenSummary', 'TSGenStationary')), ('translate_ts_extend.py', ('TSGenMinimal', 'TSGenExtend'))):
+            tt = VERIF / 'tools' / tool      # time_series_causal_graph.py algorithms -> TSGen*.v (each tool writes its own non-compiling stub per group)
+            if tt.exists():
+                r = subprocess.run([sys.executable, str(tt), str(REPO), str(THEORIES)], capture_output=True, text=True)
+                log.append('%s: exit %d %s' % (tool, r.returncode, (r.stdout + r.stderr)[-600:]))
+                for f in outs:
+                    if not (THEORIES / f'{f}.v').exists():
+                        (THEORIES / f'{f}.v').write_text('(* the translator failed closed *) Definition translator_failed_closed : True := 0.\n')
         if clean:
             subprocess.run(['make', '-C', str(COQ), 'clean'], capture_output=True, text=True)
         if not (COQ / 'Makefile').exists() or (COQ / '_CoqProject').stat().st_mtime > (COQ / 'Makefile').stat().st_mtime:
@@ -328,11 +336,11 @@ def build(clean: bool = False, timeout: int = 3000):
         lk.close()
 
 
-def property_obligations(pid: str):
-    """Re-check coq/theories/Properties/<pid>.v with coqc and collect every theorem in it together
+def property_obligations(pid: str, variant: str = ''):
+    """Re-check coq/theories/Properties/<pid><variant>.v with coqc and collect every theorem in it together
     with the Print Assumptions answer beneath it.
     Returns dict(ok, theorems=[{name, assumptions}], log)."""
-    f = THEORIES / 'Properties' / f'{pid}.v'
+    f = THEORIES / 'Properties' / f'{pid}{variant}.v'
     if not f.exists():
         return dict(ok=False, theorems=[], log=f'{f} missing')
     lk = _lock()
